@@ -774,6 +774,12 @@ func (p *Parser) doHeredocs() {
 		if p.err != nil {
 			break
 		}
+		if r.Word == nil {
+			// A newline inside the here-document word itself, such as the
+			// zsh subscript in "<<$A[", which is still being parsed.
+			p.posErr(r.OpPos, "%#q must be followed by a word", r.Op)
+			break
+		}
 		p.quote = hdocBody
 		if r.Op == DashHdoc {
 			p.quote = hdocBodyTabs
